@@ -49,6 +49,14 @@ pub fn constructed(r: &mut Rng, tight_domains: bool) -> LinearModel {
         m.add_variable(&format!("x{}", i), t);
     }
     let is_min = r.chance(1, 2);
+    // row names: plain (`a0`), or the names the linearizer gives to constraints that SHARE a source name
+    // (`need`, `need__2`, `need__3`: a `for`-quantified or repeated named constraint) — user rows whose names contain `__`
+    let family_names = r.chance(1, 3);
+    let mut fam_k = 0;
+    let mut row_name = |r: &mut Rng, plain: String| -> String {
+        if r.chance(1, 6) { return String::new(); }
+        if family_names { fam_k += 1; if fam_k == 1 { "need".to_string() } else { format!("need__{}", fam_k) } } else { plain }
+    };
     let mut obj = vec![0.0; n];
     let mut named = 0;
     for (k, a) in rows.iter().enumerate() {
@@ -60,14 +68,15 @@ pub fn constructed(r: &mut Rng, tight_domains: bool) -> LinearModel {
         let y = match rel { Comparison::GreaterOrEqual => mag, Comparison::LessOrEqual => -mag, _ => if r.chance(1, 2) { mag } else { -mag } };
         for j in 0..n { obj[j] += y * a[j]; }
         let rhs: f64 = a.iter().zip(&x0).map(|(p, q)| p * q).sum();
-        let name = if r.chance(1, 6) { String::new() } else { named += 1; format!("a{}", k) };
+        let name = row_name(r, format!("a{}", k));
+        if !name.is_empty() { named += 1; }
         m.add_named_constraint(a.clone(), rel, rhs, &name);
     }
     for k in 0..r.below(3) {
         let a: Vec<f64> = (0..n).map(|_| r.range(-3, 3) as f64).collect();
         let act: f64 = a.iter().zip(&x0).map(|(p, q)| p * q).sum();
         let (rel, rhs) = if r.chance(1, 2) { (Comparison::LessOrEqual, act + 1.0 + r.below(3) as f64) } else { (Comparison::GreaterOrEqual, act - 1.0 - r.below(3) as f64) };
-        let name = if r.chance(1, 6) { String::new() } else { format!("i{}", k) };
+        let name = row_name(r, format!("i{}", k));
         m.add_named_constraint(a, rel, rhs, &name);
     }
     let _ = named;
@@ -94,7 +103,9 @@ pub fn compile(lm: &LinearModel) -> Option<LinearModel> {
         dv.increment_usage();
         domain.insert(n.clone(), dv);
     }
-    let cons = lm.constraints().iter().map(|r| Constraint::new(lin_exp(r.coefficients(), vars), *r.constraint_type(), Exp::Number(r.rhs()), r.name())).collect();
+    // rows called `need__k` go in under the SHARED source name `need`: the linearizer itself renames them
+    let source_name = |n: String| match n.rfind("__") { Some(i) if i > 0 && n[i + 2..].chars().all(|c| c.is_ascii_digit()) && i + 2 < n.len() => n[..i].to_string(), _ => n };
+    let cons = lm.constraints().iter().map(|r| Constraint::new(lin_exp(r.coefficients(), vars), *r.constraint_type(), Exp::Number(r.rhs()), source_name(r.name()))).collect();
     let obj = Objective::new(lm.optimization_type().clone(), lin_exp(lm.objective(), vars));
     let model = Model::new(obj, cons, domain);
     std::panic::catch_unwind(|| Linearizer::linearize(model).ok()).ok().flatten()
@@ -117,6 +128,12 @@ fn push_case(lm: &LinearModel, solved: &LinearModel, stream: &str, compiled: boo
         c.tags.push(format!("row-{}{}", sx::cmp(*r.constraint_type()), if r.name().is_empty() { "-unnamed" } else { "" }));
     }
     if compiled && sx::domain(lm.domain()) != sx::domain(solved.domain()) { c.tags.push("derived-bounds-tighten-domain".into()); }
+    if lm.constraints().iter().any(|r| r.name().contains("__")) { c.tags.push("row-names-with-double-underscore".into()); }
+    if compiled {
+        let a: Vec<String> = lm.constraints().iter().map(|r| r.name()).filter(|n| !n.is_empty()).collect();
+        let b: Vec<String> = solved.constraints().iter().map(|r| r.name()).filter(|n| !n.is_empty()).collect();
+        c.tags.push(if a.iter().all(|n| b.contains(n)) { "compiled-row-names-preserved".into() } else { "compiled-row-names-differ".into() });
+    }
     c.tags.sort();
     c.tags.dedup();
     c.nontrivial = matches!(&o, Outcome::Solution(s) if !s.duals.is_empty());
